@@ -204,11 +204,14 @@ def check(ctx):
         ctx.check(not _always_true(h), R, h, "%s counts" % cname, "%s judges the run lengths" % cname, "%s._potential_counts_conform always returns True" % cname)
     cr = ctx.fn("cross_block:MultiCrossBlockRepeat._create")
     flag = [s for s in statements(cr.node) if isinstance(s, ast.If) and "is_complex_for_combinatoric" in ast.unparse(s.test)]
-    t = ast.unparse(flag[0].test).replace(" ", "").replace("and(notlist(filter(lambdaf:f.has_complex_window,design)))", "andnotlist(filter(lambdaf:f.has_complex_window,design))") if flag else ""
-    ctx.check(len(flag) == 1 and t == "notlist(filter(lambdac:c.is_complex_for_combinatoric(),self.constraints))andnotlist(filter(lambdaf:f.has_complex_window,design))"
+    from ..sym import cond_literals
+    lits = cond_literals(flag[0].test, True, Facts(cr).snaps.get(id(flag[0]))) if flag else []
+    want_l = sorted(["not([_b0 for _b0 in self.constraints if _b0.is_complex_for_combinatoric()])",
+                     "not([_b0 for _b0 in _desugar_factors_with_weights(design, [_b0 for _b0 in crossings if (0 < len(_b0))])[0] if _b0.has_complex_window])"])
+    ctx.check(len(flag) == 1 and sorted(lits) == want_l
               and ast.unparse(flag[0].body[0]) == "self.complex_factors_or_constraints = False", R, cr, "routing flag",
               "RandomGen is auto-selected only when no constraint is complex for the combinatoric sampler and no factor has a complex window",
-              "the routing flag complex_factors_or_constraints is computed as `%s`" % t)
+              "the routing flag complex_factors_or_constraints is cleared under %s" % lits)
     for ref, solver in (("iterate:IterateGen.sample", "IterateSATGen"), ("uniform:UniformGen.sample", "UniGen")):
         d = ctx.fn(ref)
         body = ast.unparse(d.node)
